@@ -178,8 +178,12 @@ fn sweep_checks(ctx: &Ctx) {
                     let case = json!({"kind": "sweep", "ty": "f64", "d": d, "steps": steps, "init": "per-chain ramp", "chains": n_chains});
                     let rec = new_rec::<f64>(mk_f64);
                     let log = rec.log.clone();
+                    let seeded = n_chains % 2 == 0 || d % 2 == 0;
                     let r = catch(|| {
                         let mut s = GibbsSampler::new(rec, inits.clone());
+                        if seeded {
+                            s = s.set_seed(40 + d as u64);
+                        }
                         let out = s.run(steps, 0).map_err(|e| e.to_string());
                         let ids: Vec<u64> = s.chains.iter().map(|c| c.target.id).collect();
                         let cur: Vec<Vec<f64>> = s.chains.iter().map(|c| c.current_state.clone()).collect();
